@@ -344,7 +344,7 @@ class Case:
         return {'id': self.id, 'path': self.path.decode('utf-8', 'backslashreplace'), 'path_hex': hx(self.path),
                 'filters': self.filters, 'aggs': self.aggs, 'accessor': self.acc, 'nocfg': self.nocfg,
                 'docs': [doc_json_text(d) for d in self.docs], 'docs_desc': [doc_go(d) for d in self.docs],
-                'mode': self.mode, 'meta': self.meta}
+                'mode': self.mode, 'meta': self.meta, 'alias': self.alias}
 
 
 def parse_obs_line(line):
